@@ -14,6 +14,9 @@ use rlib_fft::{Complex, FFT};
 use rlib_num_traits::Float;
 use vcore::*;
 
+static SHORT_DEST_JUDGED: std::sync::atomic::AtomicU64 = std::sync::atomic::AtomicU64::new(0);
+static SHORT_DEST_REFUSED: std::sync::atomic::AtomicU64 = std::sync::atomic::AtomicU64::new(0);
+
 fn conv(a: &[i32], b: &[i32]) -> Vec<i64> {
     if a.is_empty() || b.is_empty() {
         return vec![];
@@ -225,6 +228,32 @@ fn judge_call<F: Float>(obj: &FFT<F>, a: &[i32], b: &[i32]) -> Result<(), (&'sta
     }
     if exp.is_empty() {
         return Ok(());
+    }
+    // 3b. destinations SHORTER than the product (the usual "product modulo x^k" call).  The crate zips the
+    // destination with the coefficients, so the positions that exist receive their coefficients and the
+    // rest of the product is dropped.  A version that refuses such a destination by panicking is not
+    // judged (the property does not say what happens then; counted); one that returns must have added
+    // exactly the leading coefficients.
+    let mut shorts = vec![1, a.len().min(b.len()), a.len().max(b.len()), exp.len() - 1];
+    shorts.retain(|&k| k >= 1 && k < exp.len());
+    shorts.sort();
+    shorts.dedup();
+    for k in shorts {
+        let mut o5 = obj.clone();
+        let mut dest: Vec<i64> = (0..k).map(pre).collect();
+        match catch(|| o5.multiply_into(a, b, &mut dest)) {
+            Err(_) => {
+                SHORT_DEST_REFUSED.fetch_add(1, std::sync::atomic::Ordering::Relaxed);
+            }
+            Ok(()) => {
+                SHORT_DEST_JUDGED.fetch_add(1, std::sync::atomic::Ordering::Relaxed);
+                for i in 0..k {
+                    if dest[i] != pre(i) + exp[i] {
+                        return Err(("multiply_into_short_destination", format!("multiply_into on a pre-filled destination of length {k} (the product has {} coefficients): entry {i} held {} before, is {} after, expected {} (convolution term {})", exp.len(), pre(i), dest[i], pre(i) + exp[i], exp[i])));
+                    }
+                }
+            }
+        }
     }
     // 4a. transform size 1 (single coefficients): the inverse's special case must accumulate as well
     if a.len() == 1 && b.len() == 1 {
@@ -626,7 +655,9 @@ fn main() {
     run.cov("envelope", json!({"f64": "max|coef|^2 * max(len a, len b) <= 1e12", "f32": "max|coef|^2 * max(len a, len b) <= 1e3"}));
     run.cov("patterns", json!(PATTERN_NAMES));
     run.cov("exhaustive", false);
-    run.cov("rule", "state = size of the object's twiddle/bit-reversal tables (every power of two 4..2^K, each reached by update_n and by a large multiply); transition = one call (a, b) judged five ways (exact convolution, fresh object, repeated call, multiply_into on a pre-filled destination, fft*fft->fft_inv and fft_inv_into); calls = every length pair of the length set x 12 pattern pairs x magnitudes {1, sqrt(Amax), Amax} with Amax on the envelope boundary, all vectors over {-A,-1,0,1,A} for lengths <= 4 (quick: la+lb <= 6), envelope corners with long vectors, and all call histories of length <= 3 over a 7-call alphabet; NOT all coefficient vectors (exhaustive: false)");
+    run.cov("multiply_into_short_destination_calls_judged", SHORT_DEST_JUDGED.load(std::sync::atomic::Ordering::Relaxed));
+    run.cov("multiply_into_short_destination_calls_refused_by_panic_not_judged", SHORT_DEST_REFUSED.load(std::sync::atomic::Ordering::Relaxed));
+    run.cov("rule", "state = size of the object's twiddle/bit-reversal tables (every power of two 4..2^K, each reached by update_n and by a large multiply); transition = one call (a, b) judged five ways (exact convolution, fresh object, repeated call, multiply_into on a pre-filled destination longer than the product and on destinations shorter than it (lengths 1, min and max operand length, product length - 1: the positions that exist must receive exactly their coefficients), fft*fft->fft_inv and fft_inv_into); calls = every length pair of the length set x 12 pattern pairs x magnitudes {1, sqrt(Amax), Amax} with Amax on the envelope boundary, all vectors over {-A,-1,0,1,A} for lengths <= 4 (quick: la+lb <= 6), envelope corners with long vectors, and all call histories of length <= 3 over a 7-call alphabet; NOT all coefficient vectors (exhaustive: false)");
     run.sample(json!({"prec": "F64", "state": 2048, "a": "alternating ±A (len 33)", "b": "alternating ±A (len 31)", "A": amax(Prec::F64, 33, 31)}));
     run.sample(json!({"prec": "F32", "state": 4, "a": pattern(8, 5, amax(Prec::F32, 5, 4)), "b": pattern(2, 4, amax(Prec::F32, 5, 4))}));
     run.sample(json!({"history": hists.last().map(|h| h.iter().map(hop_json).collect::<Vec<_>>())}));
